@@ -28,6 +28,11 @@ def gen_cases(tier, seed):
         cases.append({"kind": "bn", "rank": rank, "C": int(rng.integers(1, 4)), "momentum": [0.1, 0.5, 1.0, None, 0.0][int(rng.integers(5))],
                       "affine": bool(rng.integers(2)), "track": bool(rng.random() < 0.75), "dtype": ["float32", "float64"][k % 2],
                       "eps": float(rng.choice([1e-5, 1e-3, 0.5, 1e-12])), "n_events": int(rng.integers(5, 31)), "seed": int(rng.integers(2 ** 31))})
+    # long training runs (1100-1400 forwards on slowly drifting data): the cumulative / exponential average rules and the batch counter stay
+    # right beyond 1000 batches (float64, so that the model comparison stays at 1e-10)
+    for k in range(4 if tier == "quick" else 16):
+        cases.append({"kind": "bn", "rank": [2, 3, 4, 2][k % 4], "C": 2, "momentum": [None, 0.01, None, 0.1][k % 4], "affine": bool(k % 2), "track": True,
+                      "dtype": "float64", "eps": 1e-5, "n_events": int(rng.integers(1100, 1400)), "seed": int(rng.integers(2 ** 31)), "long": True})
     for k in range(6 if tier == "quick" else 60):
         cases.append({"kind": "nested-mode", "seed": int(rng.integers(2 ** 31)), "variant": k})
     for p in (0, 0.1, 0.3, 0.5, 0.9, 1, 0.002, 0.998):
@@ -81,12 +86,14 @@ def run_bn(ns, c):
             which = "running_mean" if not np.allclose(gm, rm, rtol=tol, atol=tol) else "running_var"
             viol.append(V(f"bn:{which}-differs-from-model:{'cma' if c['momentum'] is None else 'ema'}:after-{after}",
                           f"{which} after {after} differs from the documented update rule", got=[gm.tolist(), gv.tolist()], want=[rm.tolist(), rv.tolist()],
-                          events=events, config={k: c[k] for k in ("momentum", "affine", "track", "rank", "dtype")}))
+                          events=events[-12:], n_events=len(events), config={k: c[k] for k in ("momentum", "affine", "track", "rank", "dtype")}))
         if int(m.num_batches_tracked) != nbt:
             viol.append(V(f"bn:batch-counter:after-{after}", f"num_batches_tracked={m.num_batches_tracked}, model {nbt}", events=events))
 
     for ev in range(c["n_events"]):
         r = rng.random()
+        if c.get("long"):
+            r = 0.9 if ev % 400 != 399 else (0.2 if training else 0.1)      # training forwards; an eval excursion every 400 events
         if r < 0.15:
             m.train(); kinds.append("train"); events.append("train()")
             switches += int(not training); training = True
@@ -102,7 +109,9 @@ def run_bn(ns, c):
             N = int(rng.integers(1, 9))
             shp = {2: (N, C), 3: (N, C, int(rng.integers(1, 4))), 4: (N, C, int(rng.integers(1, 3)), int(rng.integers(1, 3)))}[c["rank"]]
             x = (rng.standard_normal(shp) * 2 + 1).astype(dt)
-            if rng.random() < 0.2:
+            if c.get("long"):
+                x = (rng.standard_normal(shp) * (1 + ev / 500.0) + ev / 200.0).astype(dt)        # drifting mean and spread
+            elif rng.random() < 0.2:
                 x = (rng.standard_normal(shp) * 1.0 + 300.0).astype(dt)      # a batch far from the origin (|mean|/std = 300)
             elif rng.random() < 0.15:
                 x = (rng.standard_normal(shp) * 2e-5).astype(dt)             # a batch of tiny values (variance ~ 4e-10, far below the initial running variance 1)
@@ -188,8 +197,13 @@ def run_bn(ns, c):
             viol.append(V("bn:forward-raises:tracking-switched-off-after-construction", f"forward raised {type(e).__name__}", error=str(e)[:200]))
     nontrivial = switches >= 1 and ntrain_fw >= 2
     cfg = [c["rank"], c["momentum"], c["affine"], c["track"], c["dtype"]]
+    if c.get("long"):
+        counters["bn_long_histories"] = 1
+        counters["bn_long_history_max_batches"] = 0
+        kinds = ["long", len(kinds), ntrain_fw > 1000]
     return {"key": json.dumps([cfg, kinds]) if nontrivial else None, "viol": dedup(viol), "counters": counters,
-            "cover": {"bn_configs": [json.dumps(cfg[:4])], "event_kinds": sorted(set(kinds))}, "sample": {"case": c, "events": events[:20]}}
+            "cover": {"bn_configs": [json.dumps(cfg[:4])], "event_kinds": sorted(set(k_ for k_ in kinds if isinstance(k_, str))),
+                      "bn_long_runs": ([f"{ntrain_fw} training forwards, momentum={c['momentum']}"] if c.get("long") else [])}, "sample": {"case": c, "events": events[:20]}}
 
 
 def dedup(viol):
